@@ -18,6 +18,8 @@ CHECKS = {
          "Formulas with Raise / return-None operations at every position and a reduced recursion limit are generated; after each failing call TLC checks error identity, that no element on the failing chain holds a value, completed elements keep theirs, the executor is idle, and NoStale; later calls must equal the oracle (retryable).", "§4 C05"),
  "C06": ("model_checking", "trace validation: discarded set = oracle-computed transitive dependents (DepsStar), survivors untouched and not re-executed; both recalc settings",
          "For every set/clear of one element TLC computes the true dependents from the definitions (not from modelx's graph) and requires the held set afterwards to be exactly the rest; inputs must persist/vanish by the stated rules; with recalc on, the dependents must be recomputed to oracle values.", "§4 C06"),
+ "C07": ("model_checking", "trace validation with the TLA+ oracle evaluating cells inside ItemSpace contexts (arguments, returned refs, replicated child spaces, rebinding into the dynamic tree); instance identity and handle liveness judged by MxProps.ItemLabels/HandleLabels",
+         "Histories interleave evaluations inside instances P[k], P[k].C, P[k].Q[j] (all argument spellings), inputs inside instances, explicit creation/deletion of instances and every edit kind of the base (formulas, references incl. object-valued ones pointing into the tree, members of child spaces, base spaces, the parameter formula) with handles taken at every earlier point. After every operation TLC requires every value held inside an instance to equal the oracle under the parameter binding, equal bindings to give the same instance, and every earlier handle into an instance to be dead or to be the current object for its arguments.", "§4 C07"),
  "C08": ("model_checking", "trace validation: preds()/succs() and raw graph vs. oracle call sets (GraphPreds), graph nodes = held elements, acyclic",
          "After every operation the public preds/succs of every held element and the raw trace graph are compared with what the oracle says each formula calls (through uncached cells: the cached elements reached plus the uncached cells object).", "§4 C08"),
  "C09": ("model_checking", "trace validation under random and toggled cached flags (oracle is flag-independent) + exhaustive 2^3 flag assignments in the MxEval instance",
